@@ -344,8 +344,9 @@ def c10c(ctx):
         n, bad = _feature_default_false(fn)
         ctx.check(n >= 1 and not bad, fn.short + ':feature-default-false', 'default of the tile permission lookup is False', fn,
                   fail='feature lookup with a permitting default: %s' % bad)
-        full = g.find_stmts(lambda s: isinstance(s, ast.Return) and contains(s.value, lambda x: unparse(x) in ('self.layers', 'self.layers.values()')) and
-                            not any(isinstance(x, (ast.ListComp, ast.DictComp, ast.GeneratorExp)) for x in ast.walk(s.value)))
+        full = [r for r in g.find_stmts(lambda s: isinstance(s, ast.Return) and s.value is not None)
+                if contains(cfm.expr(g.stmt[r].value), lambda x: unparse(x) in ('self.layers', 'self.layers.values()')) and
+                not any(isinstance(x, (ast.ListComp, ast.DictComp, ast.GeneratorExp)) for x in ast.walk(cfm.expr(g.stmt[r].value)))]
         ok = bool(full) and all(g.guarded(r, lambda at: "'full'" in at.text, True) or g.guarded(r, lambda at: 'mapproxy.authorize' in at.text, False) for r in full)
         ctx.check(ok, fn.short + ':all-only-full', 'all layers are listed only without callback or for "full"', fn)
     fn = ctx.fn(WMS + ':WMSServer.authorized_capability_layers')
@@ -353,9 +354,18 @@ def c10c(ctx):
     root = g.find_stmts(lambda s: isinstance(s, ast.Return) and unparse(s.value) == 'self.root_layer')
     ok = bool(root) and all(g.guarded(r, lambda at: "'full'" in at.text, True) or g.guarded(r, lambda at: 'mapproxy.authorize' in at.text, False) for r in root)
     ctx.check(ok, 'WMSServer.authorized_capability_layers:unfiltered-only-full', 'the unfiltered layer tree is returned only without callback or for "full"', fn)
-    last = fn.node.body[-1]
-    cbbody = [s for s in fn.node.body if isinstance(s, ast.If)]
-    ok = bool(cbbody) and isinstance(cbbody[0].body[-1], ast.Raise) and '403' in unparse(cbbody[0].body[-1].exc)
+    # with a callback the function never falls off its end and never returns for an answer other than full / partial
+    tabc = ctx.rows(table(fn.node.body, ret_kind))
+    a_cb = [a for a in tabc.atoms if 'mapproxy.authorize' in a and tabc.atom_objs[a].op == 'in']
+    a_ok = [a for a in tabc.atoms if tabc.atom_objs[a].op == '==' and ("'full'" in a or "'partial'" in a)]
+    ok = len(a_cb) == 1 and len(a_ok) >= 1
+    if ok:
+        for asg, out, _ in tabc.assignments():
+            if not asg[a_cb[0]]:
+                continue
+            if not any(asg[a] for a in a_ok):
+                ok = ok and out.startswith('raise') and ('403' in out or '401' in out)
+            ok = ok and out != 'fall'
     ctx.check(ok, 'WMSServer.authorized_capability_layers:fallthrough-denies', 'any other answer raises 403', fn)
     fn = ctx.fn(DEMO + ':DemoServer.authorized_demo')
     g = fn.cfg
